@@ -649,6 +649,11 @@ func (g *genState) genReconfigure(base *CfgSpec) *CfgSpec {
 	case 4:
 		n := genTACfg(r, g.m)
 		c.Reserved, c.Available = n.Reserved, n.Available
+		if a := g.cutThrough(base); a != "" && r.Chance(0.5) {
+			// the available set shrinks by a few CPUs that containers may well
+			// hold (kernel-isolated ones first), everything else stays
+			c.Reserved, c.Available = base.Reserved, a
+		}
 	case 5:
 		if len(c.ResNS) == 0 {
 			c.ResNS = []string{"reserved-*", "monitoring"}
@@ -659,6 +664,70 @@ func (g *genState) genReconfigure(base *CfgSpec) *CfgSpec {
 		c.ColocatePods = !c.ColocatePods
 	}
 	return &c
+}
+
+// cutThrough returns base's available CPU set less one or two CPUs outside the
+// reserved cpuset, isolated CPUs preferred: a change that cuts through
+// existing exclusive grants instead of replacing the whole set.
+func (g *genState) cutThrough(base *CfgSpec) string {
+	r := g.r
+	cur := g.m.Online()
+	if base.Available != "" {
+		cur = parseList(base.Available)
+	}
+	keep := map[int]bool{}
+	if strings.HasPrefix(base.Reserved, "cpuset:") {
+		for _, i := range parseList(strings.TrimPrefix(base.Reserved, "cpuset:")) {
+			keep[i] = true
+		}
+	}
+	iso := map[int]bool{}
+	for _, i := range g.m.IsolatedCPUs() {
+		iso[i] = true
+	}
+	var cand, candIso []int
+	for _, i := range cur {
+		if keep[i] || i == cur[0] {
+			continue
+		}
+		cand = append(cand, i)
+		if iso[i] {
+			candIso = append(candIso, i)
+		}
+	}
+	if len(cand) < 3 {
+		return ""
+	}
+	if len(candIso) > 0 && r.Chance(0.6) {
+		cand = candIso
+	}
+	drop := map[int]bool{}
+	for k := r.Range(1, 2); k > 0; k-- {
+		drop[cand[r.Intn(len(cand))]] = true
+	}
+	var out []int
+	for _, i := range cur {
+		if !drop[i] {
+			out = append(out, i)
+		}
+	}
+	return machine.ListString(out)
+}
+
+// parseList parses a CPU list as ListString writes it ("0-3,6,8-9").
+func parseList(s string) []int {
+	var out []int
+	for _, f := range strings.Split(s, ",") {
+		var a, b int
+		if n, _ := fmt.Sscanf(f, "%d-%d", &a, &b); n == 2 {
+			for i := a; i <= b; i++ {
+				out = append(out, i)
+			}
+		} else if n, _ := fmt.Sscanf(f, "%d", &a); n == 1 {
+			out = append(out, a)
+		}
+	}
+	return out
 }
 
 func applyInvalid(c *CfgSpec, m *machine.Machine) {
